@@ -521,6 +521,20 @@ Definition op_client (o : aop) : client :=
 Definition model_step (tbl : acl_table) (obscure : bool) (sel : bytes -> client -> bool) (st : ast) (o : aop) :=
   astep (perm_of tbl) topic_matches valid_filter_spec is_share eff_filter obscure sel st o.
 
+(* sendDelayedLWT ranges over a Go map: when several delayed wills are due in one tick their publication
+   order (visible in which of two retained wills on one topic stays) is arbitrary; the engine tries
+   every order of the delayed-will table (AclProofs.inv_delayed_perm: the invariant does not depend on it) *)
+Fixpoint insert_all {A} (x : A) (l : list A) : list (list A) :=
+  match l with [] => [[x]] | y :: r => (x :: y :: r) :: map (cons y) (insert_all x r) end.
+Fixpoint perms {A} (l : list A) : list (list A) :=
+  match l with [] => [[]] | x :: r => flat_map (insert_all x) (perms r) end.
+Definition tick_orders (st : ast) (o : aop) : list ast :=
+  match o with
+  | ATick => if Nat.leb (length (a_delayed st)) 5
+             then map (fun d => mkAst (a_cl st) (a_subs st) (a_ret st) d) (perms (a_delayed st)) else [st]
+  | _ => [st]
+  end.
+
 (* the first share-group choice under which the model's step equals the observation *)
 Fixpoint find_choice (tbl : acl_table) (obscure : bool) (st : ast) (s : astepobs) (chs : list (list (bytes * client)))
   : option ast :=
@@ -543,7 +557,14 @@ Fixpoint arun_check (tbl : acl_table) (clients : list bytes) (obscure : bool) (s
       let m := amonitor tbl clients obscure ver prev s in
       if negb (m =? 0) then (1, n, m)
       else
-        match find_choice tbl obscure st s (choices (share_groups (a_subs st))) with
+        let fix try_orders (sts : list ast) : option ast :=
+          match sts with
+          | [] => None
+          | st0 :: rest => match find_choice tbl obscure st0 s (choices (share_groups (a_subs st0))) with
+                           | Some st' => Some st'
+                           | None => try_orders rest end
+          end in
+        match try_orders (tick_orders st (ao_op s)) with
         | None => (2, n, 0)
         | Some st' => arun_check tbl clients obscure st' (ao_subs s) (n + 1) r
         end
